@@ -718,6 +718,8 @@ def analyse(ctx, prog, chk, multi=False, floors=True):
 
 def selfcheck(ctx, prog, chk):
     analyse(ctx, prog, chk, floors=False)
+    from . import c19_install
+    c19_install.analyse(ctx, prog, chk)
 
 
 def run(ctx, chk):
